@@ -9,13 +9,14 @@ Exit 0: property held on everything explored.  Exit 1 + `VIOLATION property=<id>
 a solver counterexample reproduced on the real build.  Exit 2: the check itself could not
 conclude (broken harness, encoding mismatch, timeout) - never reported as success.
 """
-import argparse, concurrent.futures as cf, hashlib, json, os, random, re, shutil, subprocess, sys, threading, time
+import argparse, concurrent.futures as cf, hashlib, json, os, random, re, shutil, subprocess, sys, tempfile, threading, time
 
 VERIF = os.path.dirname(os.path.abspath(__file__))
 REPO = os.environ.get("VERIF_REPO", "/repo")
 WORK = os.path.join(VERIF, ".work")
 SYM = os.path.join(VERIF, "sym")
 NCPU = int(os.environ.get("VERIF_JOBS", "16"))
+SECOND_N = int(os.environ.get("VERIF_SECOND_SOLVER_QUERIES", "3"))  # queries per job handed to cvc5 as well (0 = off)
 CXX = "g++"
 CXXFLAGS = ["-std=c++17", "-O1", "-g0", "-w", "-fno-var-tracking"]
 
@@ -184,6 +185,12 @@ def run_sym(build, job, shard=None):
         cmd += ["--known", k]
     if shard is not None:
         cmd += ["--shard", "%d/%d/%d" % (shard, job.shards, job.shard_depth)]
+    # second solver: a sample of the queries z3 discharged is dumped as SMT-LIB and decided again by cvc5
+    dump = None
+    if SECOND_N > 0 and (shard is None or shard == 0):
+        os.makedirs(WORK, exist_ok=True)
+        dump = tempfile.mkdtemp(prefix="smt-", dir=WORK)
+        cmd += ["--smtdump", dump, str(SECOND_N)]
     t0 = time.time()
     try:
         r = subprocess.run(cmd, stdout=subprocess.PIPE, stderr=subprocess.PIPE, text=True, timeout=job.budget + 120)
@@ -192,7 +199,32 @@ def run_sym(build, job, shard=None):
     except subprocess.TimeoutExpired:
         out, rc, err = "", -9, "timeout"
     res = parse_result(out)
-    return {"job": job, "shard": shard, "rc": rc, "res": res, "wall": time.time() - t0, "stderr": err, "cmd": cmd}
+    second = second_solver(dump) if dump else None
+    return {"job": job, "shard": shard, "rc": rc, "res": res, "wall": time.time() - t0, "stderr": err, "cmd": cmd, "second": second}
+
+
+def second_solver(dump):
+    """cvc5 on the dumped queries: unsat = agrees with z3; sat = disagreement (the job cannot conclude); anything else = no second opinion"""
+    out = {"queries": 0, "agree": 0, "no_opinion": 0, "disagree": [], "cvc5_s": 0.0}
+    try:
+        for fn in sorted(os.listdir(dump)):
+            out["queries"] += 1
+            t0 = time.time()
+            try:
+                r = subprocess.run(["cvc5", "--tlimit=10000", os.path.join(dump, fn)], stdout=subprocess.PIPE, stderr=subprocess.PIPE, text=True, timeout=20)
+                ans = r.stdout.strip().splitlines()[0] if r.stdout.strip() else "error"
+            except subprocess.TimeoutExpired:
+                ans = "timeout"
+            out["cvc5_s"] += time.time() - t0
+            if ans == "unsat":
+                out["agree"] += 1
+            elif ans == "sat":
+                out["disagree"].append(open(os.path.join(dump, fn)).readline().strip())
+            else:
+                out["no_opinion"] += 1
+    finally:
+        shutil.rmtree(dump, ignore_errors=True)
+    return out
 
 
 def replay_conc(build, job, model, workdir, tag):
@@ -252,7 +284,8 @@ def main():
     spec = props.PROPS[pid]
     workdir = os.path.join(WORK, "%s-%s-%d" % (pid, tier, os.getpid()))
     os.makedirs(workdir, exist_ok=True)
-    ev_path = os.path.join(VERIF, "evidence", pid + ".json")
+    # VERIF_EVIDENCE_DIR: development runs (e.g. of the thorough tier) can keep the committed quick evidence untouched
+    ev_path = os.path.join(os.environ.get("VERIF_EVIDENCE_DIR", os.path.join(VERIF, "evidence")), pid + ".json")
     os.makedirs(os.path.dirname(ev_path), exist_ok=True)
     if os.path.exists(ev_path):
         os.remove(ev_path)
@@ -322,6 +355,7 @@ def run_property(pid, tier, seed, spec, workdir, ev_path, a, t0):
     tot = dict(paths=0, completed=0, aborted=0, branches=0, solver_calls=0, solver_s=0.0, checks=0, checks_unsat=0, concretisations=0)
     broken, violations, validated, samples = [], [], 0, []
     soft_nov, vacuous = [], []
+    second_tot = {"queries": 0, "agree": 0, "no_opinion": 0, "cvc5_s": 0.0}
     abort_reasons = {}
     by_job = {}
     for r in results:
@@ -369,6 +403,12 @@ def run_property(pid, tier, seed, spec, workdir, ev_path, a, t0):
                 (soft_nov if j.soft else broken).append("%s: NO-VERDICT (%s) after %d paths" % (j.name, res.get("no_verdict"), res.get("paths", 0)))
             viols += res.get("violations", [])
             wits += res.get("witnesses", [])
+            if r.get("second"):
+                for k in ("queries", "agree", "no_opinion"):
+                    second_tot[k] += r["second"][k]
+                second_tot["cvc5_s"] += r["second"]["cvc5_s"]
+                for dsg in r["second"]["disagree"]:
+                    broken.append("%s: SOLVER-DISAGREEMENT: cvc5 answers sat on a query z3 discharged as unsat (%s)" % (j.name, dsg))
         for k in ("paths", "completed", "aborted", "branches", "solver_calls", "checks", "checks_unsat"):
             tot[k] += agg[k]
         tot["solver_s"] += agg["solver_s"]
@@ -467,6 +507,8 @@ def run_property(pid, tier, seed, spec, workdir, ev_path, a, t0):
         "functions_encoded_count": len(enc), "functions_encoded_sample": enc[:: max(1, len(enc) // 40)][:40],
         "jobs": per_job, "build_s": round(t_build, 1), "build_log": build.log[-20:],
         "repo_tree_hash": build.repo_h,
+        "second_solver": {"solver": "cvc5 1.0.3", "what": "sample of the property checks discharged by z3 (per job the 1st, 2nd, 4th, ... non-trivial one), dumped as SMT-LIB and decided again",
+                          "queries": second_tot["queries"], "agree_unsat": second_tot["agree"], "no_opinion_timeout_or_unknown": second_tot["no_opinion"], "cvc5_time_s": round(second_tot["cvc5_s"], 1)},
         "not_concluded": broken,
         "generated_jobs_not_concluded_outside_claim": soft_nov, "generated_jobs_vacuous_outside_claim": vacuous,
         "jobs_concluded": sum(1 for x in per_job if x.get("exhaustive", True)), "jobs_total": len(per_job),
